@@ -5,7 +5,7 @@
    the L1 correspondence in harness/props/c08.py on every run (field names rendered to the real
    strings, value lists compared exactly, marker experiment through the real convert_to_acc_ops). *)
 From Snax Require Import Base.Prelude Model.C08StreamerCfg Model.C08Accels Model.C08Sem
-  Proofs.C08StreamerProofs Proofs.C08AccelProofs Proofs.C08SemProofs Proofs.C08PackProofs.
+  Proofs.C08StreamerProofs Proofs.C08AccelProofs Proofs.C08SemProofs Proofs.C08PackProofs Proofs.C08AuditProofs.
 
 (* 1. Regular-system streamers, EVERY configuration (any number <= 26 of streamers, any temporal
       flags, any spatial dims, any option list) and every op the generator accepts: the value list
@@ -170,6 +170,41 @@ Theorem C08_loop_count_gemmx_m :
   prod_nonreducing p = steps (map (fun bs => if snd bs =? 0 then 1 else fst bs) (combine (p_ub p) (p_ts p))) (p_ts p).
 Proof. exact loop_count_gemmx_m. Qed.
 Print Assumptions C08_loop_count_gemmx_m.
+
+(* 10b. (audit) The loop-count registers by VALUE: C08_loop_count_gemmx_knm leaves M existential, so it cannot be
+        combined with C08_loop_count_gemmx_m. Here: the value written to `M` (and to `temporal_loop_bound` for an
+        i8 output) IS the number of steps of the output stream (D8 = pattern 2 for i8, the last pattern otherwise)
+        with its stride-0 dims collapsed; for the rescale-only body K = N = 1 and M = temporal_loop_bound = number of
+        steps of stream 0; snax_phs writes the same first bound as snax_alu. *)
+Theorem C08_loop_count_gemmx_m_register :
+  forall n op qmac i8 resc l lp, out_pattern op i8 = Some lp ->
+  List.length (p_ub lp) = List.length (p_ts lp) -> Forall (fun b => 0 <= b) (p_ub lp) ->
+  gemmx_kernel_vals n op (GBMac qmac i8 resc) = Some l ->
+  In (TKern GM, GC (steps (collapsed_bounds lp) (p_ts lp))) l /\
+  In (TKern GTemporalLoopBound, if i8 then GC (steps (collapsed_bounds lp) (p_ts lp)) else GC 0) l.
+Proof. exact loop_count_gemmx_m_register. Qed.
+Print Assumptions C08_loop_count_gemmx_m_register.
+Theorem C08_loop_count_gemmx_rescale_only :
+  forall n op r l p0, nth_error (s_pats op) 0 = Some p0 ->
+  List.length (p_ub p0) = List.length (p_ts p0) -> Forall (fun b => 0 <= b) (p_ub p0) ->
+  gemmx_kernel_vals n op (GBRescale r) = Some l ->
+  In (TKern GK, GC 1) l /\ In (TKern GN, GC 1) l /\
+  In (TKern GM, GC (steps (p_ub p0) (p_ts p0))) l /\
+  In (TKern GTemporalLoopBound, GC (steps (p_ub p0) (p_ts p0))) l.
+Proof. exact loop_count_gemmx_rescale_only. Qed.
+Print Assumptions C08_loop_count_gemmx_rescale_only.
+Theorem C08_loop_count_phs :
+  forall op b t ss l cfg sw, nth_error (s_pats op) 0 = Some (mkPat [b] [t] ss) -> 0 <= b ->
+  phs_vals cfg op sw = Some l ->
+  In (TKern LoopBoundAlu, VConst (steps [b] [t])) l.
+Proof. exact loop_count_phs. Qed.
+Print Assumptions C08_loop_count_phs.
+Example C08_loop_count_gemmx_m_register_nonvacuous :
+  let op := mkSop [mkPat [4; 2] [8; 64] [8]; mkPat [4; 2] [8; 0] [8]; mkPat [4; 2] [0; 256] [8]] [] in
+  out_pattern op true = Some (mkPat [4; 2] [0; 256] [8]) /\
+  steps (collapsed_bounds (mkPat [4; 2] [0; 256] [8])) [0; 256] = 2 /\
+  exists l, gemmx_kernel_vals 8 op (GBMac false true None) = Some l /\ In (TKern GM, GC 2) l /\ In (TKern GK, GC 4) l.
+Proof. exact loop_count_gemmx_m_register_nonvacuous. Qed.
 
 (* 11. Packed CSRs: after `& 255` the 8-bit fields of csr0 (min | max | out_zp | in_zp) and of
        subtractions (zp_b | zp_a) do not overlap — the or of the shifted fields is their sum, for all
